@@ -33,8 +33,9 @@ Definition rank_filter (mode : Z) (f bc : arr) (rank : Z) (garbage : list Z) : l
   map (fun ip => match rank_at mode f bc rank (snd ip) with Some v => v | None => nthZ 0 garbage (fst ip) end)
       (combine (Zseq 0 (Z.to_nat (size (shape f)))) (all_positions (shape f))).
 
-(* median_filter: rank = Bc.sum() // 2 (Bc is 0/1 after the cast to f's dtype in practice) *)
-Definition median_rank (bc : arr) : Z := sumZ (data bc) / 2.
+(* median_filter: rank = (number of non-zero entries of Bc) // 2 -- the middle of the selected samples, whatever non-zero
+   values mark the members *)
+Definition median_rank (bc : arr) : Z := Zlen (filter (fun v => negb (v =? 0)) (data bc)) / 2.
 
 (* mean_filter<T>: (sum, n) -- the implementation returns the double sum/n *)
 Definition mean_at (mode : Z) (f bc : arr) (p : list Z) : Z * Z :=
@@ -46,8 +47,15 @@ Definition mean_filter (mode : Z) (f bc : arr) : list (Z * Z) := map (mean_at mo
 
 (* template_match<T> (just_equality = 0): compress = false; arithmetic in T *)
 Definition wrapd (d : dt) (x : Z) : Z := match d with DBool => (if x =? 0 then 0 else 1) | DInt t => wrap t x end.
+(* the sample of one template entry: retrieve; failing that the padding constant in constant mode (cval = 0, the only value
+   the wrapper lets through), nothing in ignore mode *)
+Definition tm_sample (mode : Z) (f : arr) (p off : list Z) : option Z :=
+  match retrieve mode f p off with
+  | Some v => Some v
+  | None => if mode =? ExtendConstant then Some 0 else None
+  end.
 Definition tm_at (d : dt) (mode : Z) (f t : arr) (p : list Z) : Z :=
-  fold_left (fun diff2 e => match retrieve mode f p (fst e) with
+  fold_left (fun diff2 e => match tm_sample mode f p (fst e) with
                             | Some v => let tj := snd e in
                                         let delta := wrapd d (if v >? tj then v - tj else tj - v) in
                                         wrapd d (diff2 + delta * delta)
@@ -79,10 +87,17 @@ Definition count_le (x : Z) (l : list Z) : Z := Zlen (filter (fun y => y <=? x) 
 (* v is the r-th smallest (0-based) value of l *)
 Definition is_rth_smallest (l : list Z) (r v : Z) : Prop := In v l /\ count_lt v l <= r < count_le v l.
 
-(* sum of squared differences over the in-image (border-mapped) samples of the window centred at p *)
+(* the window sample at template offset off: the border-mapped pixel; the padding constant (cval = 0, the only value the
+   wrapper accepts) in constant mode; no sample in ignore mode *)
+Definition window_sample (mode : Z) (f : arr) (p off : list Z) : option Z :=
+  match border_pos mode (shape f) (padd p off) with
+  | Some q => Some (aget f q)
+  | None => if mode =? M_constant then Some 0 else None
+  end.
+(* sum of squared differences between the template and the window centred at p *)
 Definition ssd_spec (mode : Z) (f t : arr) (p : list Z) : Z :=
-  sumZ (map (fun k => match border_pos mode (shape f) (padd p (psub k (centre (shape t)))) with
-                      | Some q => (aget f q - aget t k) * (aget f q - aget t k)
+  sumZ (map (fun k => match window_sample mode f p (psub k (centre (shape t))) with
+                      | Some v => (v - aget t k) * (v - aget t k)
                       | None => 0
                       end) (all_positions (shape t))).
 
